@@ -152,6 +152,40 @@ func genC14(c *Ctx) {
 			files = append(files, of{f, data, name})
 			c.count(fmt.Sprintf("filelen:%s", lenClass(flen, io)))
 		}
+		// a long run of reads whose results are looked at only at the end: what Clnt.Read handed out stays what
+		// it was while ten receive buffers' worth of further replies arrive
+		if len(files) > 0 && msize <= 8216 && r.Intn(2) == 0 {
+			x := &files[r.Intn(len(files))]
+			if len(x.data) > 0 {
+				type held struct {
+					off int
+					b   []byte
+				}
+				var hs []held
+				total, off := 0, 0
+				for n := 0; n < 4000 && total < 10*8*int(msize); n++ {
+					cnt := 1 + r.Intn(io)
+					b, err := e.c.Read(x.f.Fid, uint64(off), uint32(cnt))
+					if err != nil {
+						c.oracleFail("C14/read", fmt.Sprintf("Read(off %d, cnt %d): %v", off, cnt, err), line)
+						break
+					}
+					hs = append(hs, held{off, b})
+					total += len(b) + 11
+					off += len(b)
+					if len(b) == 0 || off >= len(x.data) {
+						off = r.Intn(len(x.data))
+					}
+				}
+				for _, h := range hs {
+					if !bytes.Equal(h.b, x.data[h.off:h.off+len(h.b)]) {
+						c.oracleFail("C14/read-result-changed", fmt.Sprintf("the %d bytes Read returned for offset %d no longer equal the file's bytes after later reads (%d reads, %d reply bytes)", len(h.b), h.off, len(hs), total), line)
+						break
+					}
+				}
+				c.count("op:held-reads")
+			}
+		}
 		for step := 0; step < 12 && len(files) > 0; step++ {
 			x := &files[r.Intn(len(files))]
 			off := []int{0, 1, len(x.data), len(x.data) - 1, len(x.data) + 5, r.Intn(len(x.data) + 2)}[r.Intn(6)]
@@ -509,7 +543,23 @@ func genC15(c *Ctx) {
 							}
 							pos = append(pos, j)
 						}
-						obs = fmt.Sprintf("ok %s off=%d", showRuns(pos), reflect.ValueOf(f3).Elem().FieldByName("offset").Uint())
+						// where Readdir left the file offset: the field itself, or — should it be renamed — what
+						// the next File.Read still returns from there
+						off := uint64(0)
+						if fv := reflect.ValueOf(f3).Elem().FieldByName("offset"); fv.IsValid() && fv.CanUint() {
+							off = fv.Uint()
+						} else {
+							left := 0
+							for {
+								nb, rerr := f3.Read(make([]byte, cnt))
+								if nb == 0 || rerr != nil {
+									break
+								}
+								left += nb
+							}
+							off = uint64(total - left)
+						}
+						obs = fmt.Sprintf("ok %s off=%d", showRuns(pos), off)
 					}
 					c.count(fmt.Sprintf("readdir0:start=%s", map[bool]string{true: "0", false: "mid"}[start == 0]))
 					c.emit(fmt.Sprintf("readdir0 %s %d %d", endsTxt, cnt, start), obs, true)
@@ -930,6 +980,15 @@ func genC16(c *Ctx) {
 			complete := werr == nil && len(qs) == len(names)
 			if inPlace && !complete && before != nil && (aerr != nil || after.Qid.Path != before.Qid.Path) {
 				c.oracleFail("C16/partial-walk-moves-fid", fmt.Sprintf("in-place walk %v resolved %d of %d: the fid moved", names, len(qs), len(names)), line)
+			}
+			if inPlace && !complete {
+				// … and is still the directory it was: the walk that resolves walks again from it
+				nf2 := e.c.FidAlloc()
+				if q2, err := e.c.Walk(src, nf2, comps[:1]); err != nil || len(q2) != 1 {
+					c.oracleFail("C16/partial-walk-spoils-fid", fmt.Sprintf("after the in-place walk %v resolved %d of %d, walking %q from the same fid: %v", names, len(qs), len(names), comps[0], err), line)
+				} else {
+					e.c.Clunk(nf2)
+				}
 			}
 			if complete {
 				tgt := nf
